@@ -7,6 +7,11 @@ HERE = os.path.dirname(os.path.dirname(os.path.abspath(__file__)))
 
 CLAIMED = {
     # id: (level, technique, text, note, design_ref)
+    "C03": ("exploration",
+            "deterministic simulation: seam-level interval invariant on every ode/jac/events crossing + status honesty judged from observables (dense-span twin, non-terminal twin) on fault-free, cancelled and budget/fault-stopped runs",
+            "A deterministic sweep (6 methods x 2 directions x x0 in {0,3} x 7 span lengths 1e-12..7 x 9 option classes) plus a seeded swarm over spans (tiny, huge, infinite with terminal event), first_step (incl. > span, either sign), max_step (inf, > span, divisors), t_eval, dense_output, events, in three sub-populations (fault-free / terminal event / budget or non-finite RHS fault). Oracles: no callback evaluated outside [x0,xend]; t starts at x0, strictly monotone, inside the interval; shapes; Success => covered to rounding and last sample == xend; last accepted abscissa == xend bitwise => Success; UserInterrupt <=> a terminal function reaches its count in the twin; Success => finite values.",
+            "Trusted: coverage read from the dense span (dense twin), terminal stop read from the twin with flags cleared; delta_t slack (x step count for RK4).",
+            "DESIGN.md §5 C03"),
     "C04": ("fault_enumeration",
             "deterministic simulation: fault injection at the RHS seam at every crossing index + seeded swarm, tick-watchdog bounded liveness",
             "Every S1 crossing index of every catalogue base gets a fault of every kind/duration (exhaustive over that finite space), plus a seeded swarm of random problems/options/knobs with phase-biased fault placement and the intrinsic blow-up/discontinuity/stiff cases; oracles: no panic, no hang within 5e6 ticks, no Success with non-finite values from an error-controlled method, every accepted step seen on the events seam is among the returned samples.",
